@@ -4,14 +4,34 @@
 a waiter never reaches call(), so the flag is inert for it). The caller gets `result c panic`, nothing may stay
 registered. On the pinned tree this wedged the key for ever (notes/agent-coalesce.md); repaired since.
 
+`manual dropsvc`: the adapter drops its `CoalesceService` handle and the layer — every handle sharing the in-flight
+table is gone (what `svc.clone().oneshot(req)` bursts do when the last request consumes the original handle) while
+call futures may still be in flight. Nothing in flight may notice (the leader's future owns the table); no request
+can be made afterwards: a later `arrive` is answered `noop` on both sides, and so is a poll/drop of such a caller.
+Generated in every phase: before anybody arrives, before any arrival completes, with a leader and waiters in flight,
+after completion, at the very end (theorems TR.Props.C11.handle_drop_*; seeded/C11-w2m2).
+
+`manual ondrop c=<c> by=<c2> inner=L:O [thread=1]`: arms a one-shot hook on the inner future of caller c: when it is
+destroyed unfinished (leader c dropped), request c2 for the same key arrives from inside that destructor (thread=1:
+on a second OS thread while the destructor blocks) — the only point where code can run between "key unregistered"
+and "inner future destroyed" in `Drop for CoalesceFuture`. The following `arrive c2 …` line only hands the parked
+future to the poller. The call of c is still in flight then, so c2 must coalesce onto it (model: the arrival takes
+place before the drop; c2 is then failed with leader_cancelled); monitor c11-drop-overlap. (Genuine defect found with it and repaired in /repo: notes/strengthen-C11.md, known_findings.json.)
+
 Meta lines of the harness used by the monitors (never compared with the model):
   #arrive c key   adapter, just before `Service::call` (a leader's `inner_call` follows at once)
   #fp c t         first poll of caller c
   #wake c t,..    a re-poll of c whose waker has fired since the previous poll
   #poll c         adapter, every poll of a call future that made no inner call in `call()` (a waiter)
   #drop c t       the caller's future is dropped
+  #dropsvc        adapter, `manual dropsvc` dropped the service handle
+  #ondrop c c2    adapter, inside the destructor of leader c's unfinished inner future: request c2 arrives now
 """
+import os
 from gen.util import kvs, tparse, pick_outcome
+
+# requests arriving while a dropped leader's inner future is being destroyed (`manual ondrop`)
+REENTRANT_DROP = True
 
 
 # ----------------------------------------------------------------------------- generator
@@ -32,6 +52,10 @@ class _Sim:
         else:
             self.lead[key] = c
             self.info[c] = (key, now + lat, out)
+
+    def waiting(self):
+        """some live waiter's leader is still in flight"""
+        return any(c in self.join and self.join[c] not in self.over for c in self.live)
 
     def _retire(self, c):
         key = self.info[c][0]
@@ -70,6 +94,18 @@ def gen(rng, tier):
     settles = 0
     kept = []
     hot = rng.randint(1, nkeys)         # most requests go to one key, so that they coalesce
+    # when the last service handle is dropped: never (the owner outlives everything) / before anybody arrives /
+    # as soon as a leader has waiters in flight / at any step / after the tail / at the very end
+    r = rng.random()
+    dropsvc = "never" if r < 0.62 else "start" if r < 0.65 else "inflight" if r < 0.83 else "any" if r < 0.93 else "late" if r < 0.97 else "end"
+    gone = [False]
+
+    def handle_drop():
+        ops.append("manual dropsvc")
+        gone[0] = True
+
+    if dropsvc == "start":
+        handle_drop()
 
     def pick():
         if sim.live and rng.random() < 0.93:
@@ -78,9 +114,13 @@ def gen(rng, tier):
 
     for _ in range(nsteps):
         r = rng.random()
-        if not sim.live and nxt > ncall and rng.random() < 0.7:
+        if not gone[0] and ((dropsvc == "inflight" and sim.waiting() and rng.random() < 0.6) or (dropsvc == "any" and rng.random() < 0.12)):
+            handle_drop()
+            if rng.random() < 0.3:
+                ops.append("manual dropsvc")    # again: nothing left to drop
+        if not sim.live and (nxt > ncall or gone[0]) and rng.random() < 0.7:
             break                       # everybody has resolved or been dropped
-        if nxt <= ncall and (r < 0.30 or not sim.live):
+        if nxt <= ncall and (r < 0.30 or not sim.live) and (not gone[0] or not sim.live or rng.random() < 0.3):
             c = nxt
             nxt += 1
             key = hot if rng.random() < 0.7 else rng.randint(1, nkeys)
@@ -89,9 +129,11 @@ def gen(rng, tier):
             cp = rng.random() < 0.12        # the inner service's call() itself panics (if this request leads)
             keep = rng.random() < 0.25      # the caller holds on to the finished future and drops it later (`release`)
             ops.append("arrive %d key=%d inner=%d:%s%s%s" % (c, key, lat, out, " callpanic=1" if cp else "", " keep=1" if keep else ""))
+            arrived.append(c)
+            if gone[0]:
+                continue                    # no handle to call through: refused (`noop`), and so is any poll/drop of it
             if keep:
                 kept.append(c)
-            arrived.append(c)
             if cp and key not in sim.lead:
                 continue                    # it led and panicked in call(): no future, key free again
             sim.arrive(c, key, now, lat, out)
@@ -114,6 +156,29 @@ def gen(rng, tier):
             # drops: leaders (whose waiters must then fail fast) as often as anybody else
             leaders = [c for c in sim.live if c in sim.info]
             c = rng.choice(leaders) if leaders and rng.random() < 0.3 else pick()
+            if REENTRANT_DROP and nxt <= ncall and rng.random() < (0.45 if c in leaders else 0.06):
+                # a request for the same key arrives while the inner future of the dropped leader is being destroyed
+                # (armed on a waiter or a dead caller the hook never fires: the later arrival is an ordinary one)
+                c2 = nxt
+                nxt += 1
+                lat = rng.choice([0, 0, 5, 10])
+                out = pick_outcome(rng, w_ok=5, w_err=2, w_panic=1, w_never=1)
+                ops.append("manual ondrop c=%d by=%d inner=%d:%s%s" % (c, c2, lat, out, " thread=1" if rng.random() < 0.5 else ""))
+                ops.append("drop %d" % c)
+                key = sim.info[c][0] if c in sim.info else hot
+                if not gone[0] and c in leaders:
+                    sim.arrive(c2, key, now, lat, out)      # onto the dying leader
+                sim.drop(c)
+                if rng.random() < 0.9:
+                    ops.append("arrive %d key=%d inner=%d:%s" % (c2, key, lat, out))
+                    arrived.append(c2)
+                    if not gone[0] and c not in leaders:
+                        sim.arrive(c2, key, now, lat, out)
+                        marks.append(now + lat)
+                    if rng.random() < 0.5:
+                        ops.append("poll %d" % c2)
+                        sim.poll(c2, now)
+                continue
             ops.append("drop %d" % c)
             sim.drop(c)
         elif r < 0.93:
@@ -157,7 +222,9 @@ def gen(rng, tier):
         for c in order[: rng.randint(0, len(order))]:
             ops.append("poll %d" % c)
             sim.poll(c, now)
-    if rng.random() < 0.6:
+    if dropsvc == "late" and not gone[0]:
+        handle_drop()
+    if rng.random() < (0.25 if gone[0] else 0.6):
         base = 100
         for k in range(1, nkeys + 1):
             if rng.random() < 0.25:
@@ -181,18 +248,33 @@ def gen(rng, tier):
         ops.append("poll %d" % (base + 3))
         ops.append("adv %d" % lat)
         ops.append("settle")
+    if dropsvc in ("end", "inflight", "any") and not gone[0]:
+        handle_drop()
+        if rng.random() < 0.5:
+            ops.append("settle")
     return {"header": "coalesce", "ops": ops}
+
+
+def canon(lines):
+    """`noop` answers compare without their time stamp: the poll/drop of a caller that never got a future is answered
+    by the harness's generic loop (bare `noop`) and by the model's machine (`t=.. noop`)"""
+    return ["noop" if l.startswith("t=") and l.split()[1:] == ["noop"] else l for l in lines]
 
 
 # ----------------------------------------------------------------------------- monitors
 
-def _keys(case):
-    """caller -> key, from the case's own arrive operations (first arrival counts)"""
+def _keys(case, meta=None):
+    """caller -> key, from the case's own arrive operations (first arrival counts); a request made inside the
+    destructor of a dropped leader's inner future (`#ondrop c c2`) carries that leader's key"""
     keys = {}
     for o in case["ops"]:
         w = o.split()
         if len(w) >= 2 and w[0] == "arrive" and w[1] not in keys:
             keys[w[1]] = kvs(o).get("key", "0")
+    for _, m in (meta or []):
+        w = m.split()
+        if w[0] == "#ondrop" and w[1] in keys:
+            keys[w[2]] = keys[w[1]]
     return keys
 
 
@@ -234,7 +316,7 @@ def _expected(fate):
 
 def mon_inflight(case, lines, meta):
     """at most one inner call in flight per key, in every prefix of the implementation log"""
-    keys = _keys(case)
+    keys = _keys(case, meta)
     inflight = {}
     for i, l in enumerate(lines):
         t, w = tparse(l)
@@ -254,11 +336,36 @@ def mon_inflight(case, lines, meta):
     return None
 
 
+def mon_drop_overlap(case, lines, meta):
+    """a request that arrives while the inner future of a dropped leader is still being destroyed (between the
+    harness's `#ondrop c c2` and the `inner_drop c k` that ends the destructor) finds call k still in flight: it
+    must not start an inner call for that key"""
+    keys = _keys(case, meta)
+    for i, m in meta:
+        w = m.split()
+        if i < 0 or w[0] != "#ondrop":
+            continue
+        c, c2 = w[1], w[2]
+        started = []
+        for l in lines[i:]:
+            _, x = tparse(l)
+            if x and x[0] == "inner_drop" and x[1] == c:
+                if started:
+                    return ("request %s arrived while the inner future of the dropped leader %s (inner call %s, key %s) was still "
+                            "being destroyed and started inner call %s of its own: two calls to the wrapped service in flight for "
+                            "key %s (the key is unregistered before the inner future is destroyed)"
+                            % (c2, c, x[2], keys.get(c), started[0], keys.get(c)))
+                break
+            if x and x[0] == "inner_call":
+                started.append(x[2])
+    return None
+
+
 def mon_share(case, lines, meta):
     """roles and results: a request arriving while a call for its key is in flight makes no inner call and
     gets exactly that call's result (same serial; `err:leader_cancelled` iff that leader was dropped or
     panicked), never before the leader has finished; otherwise it leads a fresh call at once"""
-    keys = _keys(case)
+    keys = _keys(case, meta)
     cpanic = _callpanic(case)
     ev = _timeline(lines, meta)
     cur = {}          # key -> (leader caller, serial) in flight
@@ -326,7 +433,7 @@ def mon_prompt(case, lines, meta):
     """no waiter waits for ever: once its leader has finished, been dropped or panicked a waiter resolves at its
     very next poll; and a waiter that returned Pending has always been woken again before it is re-polled
     (the code re-arms itself by waking its own waker), so an executor would poll it again"""
-    keys = _keys(case)
+    keys = _keys(case, meta)
     ev = _timeline(lines, meta)
     cur = {}
     joined = {}
@@ -371,7 +478,42 @@ def transitions(case, lines, meta=None):
     tags = []
     leaders = set()
     led_keys = set()
-    keys = _keys(case)
+    keys = _keys(case, meta)
+    # where (index into `lines`) the service handle was dropped, and who was a waiter by then
+    at = None
+    waiters = set()
+    for i, m in (meta or []):
+        w = m.split()
+        if w[0] == "#dropsvc" and i >= 0 and at is None:
+            at = i
+        elif w[0] == "#poll":
+            waiters.add(w[1])
+    if at is not None:
+        flying = set()
+        resolved = set()
+        for l in lines[:at]:
+            _, w = tparse(l)
+            if w and w[0] == "inner_call":
+                flying.add(w[1])
+            elif w and w[0] in ("inner_done", "inner_drop"):
+                flying.discard(w[1])
+            elif w and w[0] == "result":
+                resolved.add(w[1])
+        tags.append("dropsvc-inflight" if flying else "dropsvc-first" if at == 0 else "dropsvc-idle")
+        later = [tparse(l)[1] for l in lines[at:]]
+        if flying and any(w and w[0] == "result" and w[1] in waiters and w[1] not in resolved and w[2] != "err:leader_cancelled" for w in later):
+            tags.append("waiter-served-after-dropsvc")
+        if flying and any(w and w[0] == "result" and w[1] in waiters and w[1] not in resolved and w[2] == "err:leader_cancelled" for w in later):
+            tags.append("waiter-cancelled-after-dropsvc")
+        if any(w == ["noop"] for w in later):
+            tags.append("refused-after-dropsvc")
+    for i, m in (meta or []):
+        w = m.split()
+        if w[0] == "#ondrop" and i >= 0:
+            nx = tparse(lines[i])[1] if i < len(lines) else []
+            tags.append("arrival-during-leader-drop-led" if nx[:1] == ["inner_call"] else "arrival-during-leader-drop-joined")
+    if any(o.startswith("manual ondrop") and "thread=1" in o for o in case["ops"]):
+        tags.append("ondrop-second-thread")
     for l in lines:
         _, w = tparse(l)
         if not w:
@@ -407,40 +549,61 @@ LEVEL_NOTE = ("Trusted: Lean kernel; the transcription of tokio's broadcast chan
               "get_unchecked_mut` pin projection. The waiter's wake-up is a self-wake (busy-poll); it is modelled (`awake`) and observed "
               "through the harness's #wake lines by the monitor c11-prompt. The defect found on the pinned tree (a panic inside inner.call() "
               "wedged the key) is repaired; its kernel-checked record is TR/Mutants/CoalesceCallPanicWedges.lean and the witness "
-              "corpus/coalesce/call_panic_wedges_key.ops now agrees and passes.")
+              "corpus/coalesce/call_panic_wedges_key.ops now agrees and passes. Open finding (strengthening round, notes/strengthen-C11.md): "
+              "`Drop for CoalesceFuture` unregisters the key before the inner future is destroyed, so a request arriving while that "
+              "destructor runs (another thread, or the destructor itself) leads a second inner call while the abandoned one still exists; "
+              "shown deterministically by corpus/coalesce/leader_drop_reentrant.ops, reported by c11-drop-overlap; the model specifies the "
+              "conforming behaviour (the request joins the dying leader), proposed repair notes/strengthen-C11-proposed-repair.diff.")
 
 SPECS = {
     "C11": {
         "group": "coalesce",
         "module": "TR.Props.C11",
         "gen": gen,
-        "monitors": [("c11-one-inflight-per-key", mon_inflight), ("c11-shared-result", mon_share), ("c11-prompt", mon_prompt)],
+        "corpus_filter": lambda c: REENTRANT_DROP or not any(o.startswith("manual ondrop") for o in c["ops"]),
+        "monitors": [("c11-drop-overlap", mon_drop_overlap), ("c11-one-inflight-per-key", mon_inflight), ("c11-shared-result", mon_share), ("c11-prompt", mon_prompt)],
         "transitions": transitions,
         "nontrivial": nontrivial,
         "all_transitions": ["lead", "lead-again", "leader-ok", "leader-err", "leader-panic", "leader-dropped",
-                            "waiter-ok", "waiter-err", "waiter-cancelled", "call-panic", "noop"],
-        "model_modules": ["TR.Model.Coalesce", "TR.Lemmas.Coalesce"],
-        "lean_files": ["TR.Model.Coalesce", "TR.Lemmas.Coalesce"],
+                            "waiter-ok", "waiter-err", "waiter-cancelled", "call-panic", "noop",
+                            "dropsvc-first", "dropsvc-idle", "dropsvc-inflight", "waiter-served-after-dropsvc",
+                            "waiter-cancelled-after-dropsvc", "refused-after-dropsvc",
+                            "arrival-during-leader-drop-joined", "ondrop-second-thread"],
+        "canon": canon,
+        "model_modules": ["TR.Model.Coalesce", "TR.Lemmas.Coalesce", "TR.Lemmas.CoalesceHandle"],
+        "lean_files": ["TR.Model.Coalesce", "TR.Lemmas.Coalesce", "TR.Lemmas.CoalesceHandle"],
         "sizes": (600, 30000),
         "rule": "seeded random op sequences (arrive key=../poll/drop/adv/settle) over 1..3 keys and 1..12 requests, 70% of them on one key, "
                 "inner latencies 0..40 ms with ok/err/panic/never, 12% of the arrivals with an inner call() that itself panics, advances biased to completion-1/completion/completion+1, leader and waiter "
                 "drops at every point, duplicate arrivals, a tail that finishes or kills the leaders, polls all waiters and starts a fresh call "
-                "per key; distinct = distinct implementation event log; non-trivial = some waiter resolved, or a leader was dropped or panicked",
+                "per key; in 38% of the cases the last service handle is dropped (`manual dropsvc`: before anybody arrives / as soon as a "
+                "leader has waiters in flight / at any step / after the tail / at the very end; later arrivals must be refused); 45% of the "
+                "leader drops (6% of the others) have a request for the same key arriving while the dropped leader's inner future is being "
+                "destroyed (`manual ondrop`, half of them on a second OS thread); "
+                "distinct = distinct implementation event log; non-trivial = some waiter resolved, or a leader was dropped or panicked",
         "trusted": ["tokio broadcast / parking_lot Mutex / unwinding semantics as transcribed in TR.Model.Coalesce (sampled by the correspondence check)",
                     "harness: clock_gettime interposition, manual poller, scripted inner service", "python diff/monitors"],
         "assumptions": ["one poll of one call future, and one Service::call, is atomic (single-threaded runtime; the map is behind a mutex)",
-                        "keys and ids modelled as unbounded Nat"],
+                        "keys and ids modelled as unbounded Nat",
+                        "a request arriving while a dropped leader's inner future is being destroyed is specified as arriving before the drop "
+                        "(TR.Coalesce.dropOps, theorem request_during_leader_teardown); the pure model has no such intermediate state"],
         "level_text": "Theorems TR.Props.C11.{one_inflight_per_key, one_inflight_per_key_trace, trace_matches_map, registered_iff_live_leader, "
                       "waiter_no_inner_at_arrival, waiter_no_inner, waiter_gets_leader_result, serial_identifies_leader, leader_drop_closes, "
                       "leader_panic_closes, call_panic_frees_key, leader_gone_fails_fast, dropped_leader_waiter_fails_at_next_poll, "
                       "completed_leader_waiter_resolves, key_free_again, fresh_call_when_free, no_eternal_wait, "
-                      "waiter_resolves_once_leader_gone, waiter_always_rearmed}: for every operation sequence over any key space (all arrival, "
+                      "waiter_resolves_once_leader_gone, waiter_always_rearmed, handle_drop_only_stops_arrivals, handle_drop_preserves_outcomes, "
+                      "handle_drop_time_irrelevant, handle_drop_unobservable, waiters_outlive_the_handle, request_during_leader_teardown, "
+                      "dropOps_spec}: for every operation sequence over any key space (all arrival, "
                       "completion, cancellation instants, all poll orders, ok/err/panic/never, panics inside inner.call() as well as in its "
                       "future) at most one inner call per key is in flight in every prefix of the log; a key is registered exactly while a "
                       "leader of it is alive; a request that finds its key registered makes no inner call and resolves only with its own "
                       "leader's serial (ok or err) or, iff that leader was dropped or panicked, with err:leader_cancelled, at its next poll; "
                       "the step that finishes, drops or panics a leader unregisters the key and the next arrival leads a fresh call; in a "
-                      "settled state every pending waiter's leader is still alive. All unconditional. Proved by an inductive invariant over "
+                      "settled state every pending waiter's leader is still alive. Dropping every service handle at any point changes nothing "
+                      "but that later arrivals are impossible: the state reached is, field for field, that of the same sequence with its later "
+                      "arrivals deleted, so outcomes do not depend on when (or whether) the handle is dropped, and a waiter of a live leader keeps "
+                      "waiting. A request arriving while a dropped leader is torn down makes no inner call and fails with leader_cancelled. "
+                      "All unconditional except that the three statements about an arrival assume a handle still exists. Proved by an inductive invariant over "
                       "the model; the model is tied to the real CoalesceLayer by line-for-line agreement of event logs on generated schedules.",
         "level_note": LEVEL_NOTE,
     },
